@@ -398,6 +398,11 @@ class BehavioralRTLIRToVVisitorL1( bir.BehavioralRTLIRNodeVisitor ):
       raise VerilogTranslationError( s.blk, node,
           f"unrecognized operator {op_t} for reduce method!" )
     value = s.visit( node.value )
+    # A unary reduction operator binds tighter than any binary or ternary
+    # operator: `^ a != b` means `(^a) != b`. Parenthesize compound operands.
+    if isinstance( node.value,
+        ( bir.IfExp, bir.UnaryOp, bir.BinOp, bir.Compare ) ):
+      value = f"( {value} )"
     op = reduce_ops[ op_t ]
     return f"( {op} {value} )"
 
